@@ -46,8 +46,9 @@ GenInit ==
 
 GenConfigure ==
   IF GenMode = "c10rows"
-  THEN \E i \in 1..Len(Rows) :
-         ConfigureWith(Rows[i].cm, Rows[i].sm, Rows[i].cx, Rows[i].sx, Rows[i].cmd)
+  THEN LET rows == Rows IN      \* (read the file once per evaluation)
+       \E i \in 1..Len(rows) :
+         ConfigureWith(rows[i].cm, rows[i].sm, rows[i].cx, rows[i].sx, rows[i].cmd)
   ELSE Configure
 
 -----------------------------------------------------------------------------
